@@ -290,3 +290,14 @@ Theorem C12_bind_roundtrip_error :
       bind_client parse reqid (IElem n) local = (BStanzaErr, local).
 Proof. exact bind_roundtrip_error. Qed.
 Print Assumptions C12_bind_roundtrip_error.
+
+(* Without a callback the receiver chooses the given fresh resource on the
+   peer's bare address (and then answers as above with VJid); when no address
+   is known for the peer nothing can be bound and bind fails without a reply. *)
+Theorem C12_bind_receiver_default_address :
+  forall remote rid,
+    (j_domain remote <> [] ->
+     default_verdict remote rid = VJid (mkjid (j_local remote) (j_domain remote) rid)) /\
+    (j_domain remote = [] -> default_verdict remote rid = VFail).
+Proof. exact default_verdict_spec. Qed.
+Print Assumptions C12_bind_receiver_default_address.
